@@ -23,6 +23,8 @@ CONSTANTS
   WFault = FALSE
   TimeoutCarriesOver = FALSE
   WriteErrKeepsEntry = FALSE
+  AllowFire = FALSE
+  FireRegisters = FALSE
   MaxTry = 3
 INVARIANTS TypeOK OwnTransaction FirstAcceptable ChanClosedOnlyAfterOwnDone NoNilDelivery PendingEntriesLive Capacity IdReusable CloseStopsLoop Deadline CtxPrompt ClosePrompt Schedule NoRespAtBudget
 PROPERTIES NoTxAfterAccept
